@@ -68,6 +68,28 @@ type gen struct {
 	budget int
 }
 
+// vocab picks a name from the exclusion vocabulary, sometimes spelled the way style sheets
+// spell it: upper case, capitalised, camel case.
+func (g *gen) vocab() string {
+	name := sim.Pick(g.r, exclVocab)
+	switch g.r.Intn(8) {
+	case 0:
+		return strings.ToUpper(name)
+	case 1:
+		return strings.ToUpper(name[:1]) + name[1:]
+	case 2:
+		var b strings.Builder
+		for i, c := range name {
+			if i%4 == 0 && c >= 'a' && c <= 'z' {
+				c -= 32
+			}
+			b.WriteRune(c)
+		}
+		return b.String()
+	}
+	return name
+}
+
 func (g *gen) tok() string {
 	g.n++
 	return "w" + strconv.Itoa(g.n) + "q"
@@ -142,7 +164,7 @@ func (g *gen) list(safe bool, depth, lvl int, linky bool) {
 		navItem := false
 		switch {
 		case g.r.Pct(8):
-			g.b.WriteString("<li " + sim.Pick(g.r, []string{"class", "id"}) + "=\"" + sim.Pick(g.r, exclVocab) + "\">")
+			g.b.WriteString("<li " + sim.Pick(g.r, []string{"class", "id"}) + "=\"" + g.vocab() + "\">")
 			safe = false
 		case g.r.Pct(4):
 			g.b.WriteString("<li role=\"" + sim.Pick(g.r, []string{"navigation", "complementary"}) + "\">")
@@ -301,7 +323,7 @@ func (g *gen) container(safe bool, depth int) {
 		}
 		g.b.WriteString("</div>")
 	case 5, 6:
-		name := sim.Pick(g.r, exclVocab)
+		name := g.vocab()
 		attr := sim.Pick(g.r, []string{"class", "id"})
 		g.b.WriteString("<div " + attr + "=\"" + name + "\">")
 		g.content(n, false, depth+1, g.r.Pct(30))
@@ -794,6 +816,44 @@ func (p *Prop) Execute(c *sim.Case, env *sim.Env) *sim.Result {
 			}
 		} else if ok {
 			fail("entry:error", oc.Msg)
+		}
+		// extractors derived from one base (they may share what the base has loaded), used one
+		// after the other in a seeded order: each answers as a fresh extractor configured the
+		// same way does
+		if failClass == "" {
+			hr := sim.NewRand(sp.Seed ^ 0xD3A1)
+			type use struct {
+				name string
+				run  func(b, d1, d2, d3 *tabula.Extractor) (string, error)
+				ref  func() (string, error)
+			}
+			text := func(e *tabula.Extractor) (string, error) { s, _, err := e.Text(); return s, err }
+			md := func(e *tabula.Extractor) (string, error) { s, _, err := e.ToMarkdown(); return s, err }
+			uses := []use{
+				{"base.JoinParagraphs().Text()", func(b, d1, d2, d3 *tabula.Extractor) (string, error) { return text(d1) }, func() (string, error) { return text(ext().JoinParagraphs()) }},
+				{"base.ByColumn().Text()", func(b, d1, d2, d3 *tabula.Extractor) (string, error) { return text(d2) }, func() (string, error) { return text(ext().ByColumn()) }},
+				{"base.Text()", func(b, d1, d2, d3 *tabula.Extractor) (string, error) { return text(b) }, func() (string, error) { return text(ext()) }},
+				{"base.JoinParagraphs().ToMarkdown()", func(b, d1, d2, d3 *tabula.Extractor) (string, error) { return md(d3) }, func() (string, error) { return md(ext().JoinParagraphs()) }},
+			}
+			b := ext()
+			// (every extractor is used for one terminal operation: one made from a stream cannot
+			// be asked twice, it has nothing to reopen)
+			d1, d2, d3 := b.JoinParagraphs(), b.ByColumn(), b.JoinParagraphs()
+			var before []string
+			for _, k := range hr.Perm(len(uses)) {
+				u := uses[k]
+				var got, want string
+				var e1, e2 error
+				if _, ok := guard("derived", func() error { got, e1 = u.run(b, d1, d2, d3); want, e2 = u.ref(); return nil }); !ok {
+					break
+				}
+				if (e1 == nil) != (e2 == nil) || got != want {
+					a, bb := sim.DiffContext(want, got)
+					fail("derived:"+sp.Entry, fmt.Sprintf("%s on extractors derived from one base, after %v, differs from a fresh extractor configured the same way (errors: %v / %v)\n  fresh:   %s\n  derived: %s", u.name, before, e2, e1, a, bb))
+					break
+				}
+				before = append(before, u.name)
+			}
 		}
 	}
 	rd.Close()
